@@ -59,7 +59,7 @@ theorem tick_total (s : State) (h : Inv s) : ∃ s' o, tick s = .ok (s', o) ∧ 
   exact foldl_postChain_inv posted _ ⟨hk, h.2.1, h.2.2⟩
 
 theorem recvLt_inv (s : State) (i : LtIn) (h : Inv s) : Inv (recvLtTotal s i).1 := by
-  unfold recvLtTotal
+  unfold recvLtTotal recvLtTotalWith
   cases hr : recvLt s i with
   | panic => exact ⟨h.1, h.2.1, h.2.2⟩
   | ok r =>
@@ -320,6 +320,116 @@ theorem recvLt_wellformed_total (s : State) (i : LtIn)
     split
     · split <;> exact ⟨_, rfl⟩
     · exact ⟨_, rfl⟩
+
+/-! ### liveness half: no lock is left behind, every background loop can step -/
+
+theorem postChain_held (s : State) (key : String) : (postChain s key).held = s.held := by
+  unfold postChain; split <;> rfl
+
+theorem foldl_postChain_held (l : List (Slots × Pend)) (s : State) :
+    (l.foldl (fun st p => postChain st p.2.key) s).held = s.held := by
+  induction l generalizing s with
+  | nil => rfl
+  | cons a l ih => simp only [List.foldl_cons]; rw [ih, postChain_held]
+
+theorem recvLt_held (s s' : State) (i : LtIn) (o : LtOut) (hr : recvLt s i = .ok (s', o)) : s'.held = s.held := by
+  unfold recvLt at hr
+  split at hr
+  · simp at hr; obtain ⟨rfl, _⟩ := hr; rfl
+  · dsimp only at hr
+    repeat' split at hr
+    all_goals first
+      | (simp at hr; done)
+      | (simp at hr; obtain ⟨rfl, _⟩ := hr; first | rfl | exact postChain_held _ _)
+
+theorem applyInput_held (s : State) (i : Input) : (applyInput s i).held = s.held := by
+  cases i with
+  | lt i =>
+    simp only [applyInput, recvLtTotal, recvLtTotalWith]
+    cases hr : recvLt s i with
+    | panic => simp [addLtBlockRelease, Release.leaksOnPanic]
+    | ok r => obtain ⟨s', o⟩ := r; exact recvLt_held s s' i o hr
+  | pendTick =>
+    simp only [applyInput]
+    cases hr : tick s with
+    | panic => rfl
+    | ok r =>
+      obtain ⟨s', o⟩ := r
+      simp only
+      unfold tick at hr
+      split at hr
+      · simp at hr
+      · simp at hr; obtain ⟨rfl, _⟩ := hr; rw [foldl_postChain_held]
+  | blockReq r =>
+    simp only [applyInput]
+    cases hr : recvReq s r with
+    | panic => rfl
+    | ok x =>
+      obtain ⟨s', o⟩ := x
+      simp only
+      unfold recvReq at hr
+      split at hr
+      · simp at hr; obtain ⟨rfl, _⟩ := hr; rfl
+      · split at hr
+        all_goals first
+          | (simp at hr; done)
+          | (simp at hr; obtain ⟨rfl, _⟩ := hr; rfl)
+  | reqTick =>
+    simp only [applyInput]
+    cases hr : reqTick s with
+    | panic => rfl
+    | ok x =>
+      obtain ⟨s', o⟩ := x
+      simp only
+      unfold reqTick at hr
+      split at hr
+      · simp at hr
+      · simp at hr; obtain ⟨rfl, _⟩ := hr; rfl
+  | blockResp d k =>
+    simp only [applyInput, recvResp]
+    split
+    · rfl
+    · split <;> exact postChain_held s k
+  | block k => exact postChain_held s k
+  | deniedTick =>
+    simp only [applyInput]
+    cases hr : deniedTick s with
+    | panic => rfl
+    | ok s' =>
+      simp only
+      unfold deniedTick at hr
+      split at hr
+      · simp at hr
+      · simp at hr; subst hr; rfl
+  | dlOld _ _ _ _ => rfl
+  | dlNew _ _ _ => rfl
+  | dlReply _ => rfl
+  | version _ _ _ => rfl
+  | peerInfo _ _ => rfl
+
+/-- **no peer input leaves a lock behind**: in every reachable state no mutex of the light-broadcast / validator
+state is held (every function that takes one releases it by `defer`, and addLtBlock does not hold pdBlockLock
+across buildPendBlock — facts `fact lock …` re-read from the source on every run) -/
+theorem no_lock_left_behind {s : State} (h : Reach s) : s.held = [] := by
+  induction h with
+  | init m t => rfl
+  | input i _ _ ih => rw [applyInput_held]; exact ih
+  | pool _ _ _ ih => exact ih
+  | poolDel _ _ ih => exact ih
+  | poolUp _ _ ih => exact ih
+  | env _ _ _ _ _ ih => exact ih
+
+/-- **no peer input permanently stops a background loop**: after any input sequence pendBlockLoop,
+blockRequestLoop and manageDeniedPeer can all take their lock and step (and by `node_survives` the step returns) -/
+theorem loops_stay_alive {s : State} (h : Reach s) (l : LockId) : loopAlive s l = true := by
+  simp [loopAlive, no_lock_left_behind h]
+
+/-- why the discipline matters: were pdBlockLock held around buildPendBlock and given back by an explicit Unlock,
+ONE light block whose txCount exceeds its hash list (recovered panic) would leave it locked — pendBlockLoop could
+never step again -/
+theorem explicit_unlock_would_wedge :
+    loopAlive (recvLtTotalWith .explicitAcrossCalls {} ⟨"k", true, 1, 4, some 0, ["h0", "h1"], 0⟩).1 .pend = false ∧
+    loopAlive (recvLtTotalWith .deferred {} ⟨"k", true, 1, 4, some 0, ["h0", "h1"], 0⟩).1 .pend = true := by decide
 
 /-! ### regression witnesses: the code before the repairs -/
 
